@@ -546,13 +546,21 @@ class ExprMixin:
         return self.ev_list(st, e.elts, got)
 
     def comp1(self, v: Value, ek: Kind) -> T:
+        if isinstance(ek, KPrim) and ek.name.startswith("Any") and (v is VNone or isinstance(v, VOpt)):
+            # None among opaque values: a distinguished token (as for list.append)
+            nt = self.decls.const("none$token", INT)
+            if v is VNone:
+                return nt
+            if hasattr(v.inner, "t") and v.inner.t.sort == INT:
+                return Ite(v.isnone, nt, v.inner.t)
         c = to_comps(v, ek, lambda so: self.arbitrary(so))
         assert len(c) == 1
         return c[0]
 
     def hint_elem_kind(self, node, vs):
         hint = self.kind_hints.get((self.cur_func_name, getattr(node, "lineno", None))) or \
-            (self.kind_hints.get((self.cur_func_name, "[]")) if not vs else None)
+            (self.kind_hints.get((self.cur_func_name, "[]")) if not vs else None) or \
+            (self.kind_hints.get((self.cur_func_name, "[1]")) if len(vs) == 1 else None)
         if hint:
             return parse_kind(hint).elem
         if vs:
